@@ -1450,13 +1450,18 @@ void TopologyKernel::swap_cell_indices(CellHandle _h1, CellHandle _h2)
 
     // correct pointers to those cells
     if (has_face_bottom_up_incidences()) {
-        for (const auto hfh: cells_[_h1].halffaces()) {
-            if (incident_cell_per_hf_[hfh] == _h1)
-                incident_cell_per_hf_[hfh] = _h2;
-        }
-        for (const auto hfh: cells_[_h2].halffaces()) {
-            if (incident_cell_per_hf_[hfh] == _h2)
-                incident_cell_per_hf_[hfh] = _h1;
+        // a halfface can be listed by both cells (one of them deleted but not yet
+        // garbage-collected): make sure its entry is exchanged only once
+        std::set<HalfFaceHandle> processed_halffaces;
+        for (const auto ch: {_h1, _h2}) {
+            for (const auto hfh: cells_[ch].halffaces()) {
+                if (!processed_halffaces.insert(hfh).second)
+                    continue;
+                if (incident_cell_per_hf_[hfh] == _h1)
+                    incident_cell_per_hf_[hfh] = _h2;
+                else if (incident_cell_per_hf_[hfh] == _h2)
+                    incident_cell_per_hf_[hfh] = _h1;
+            }
         }
     }
 
